@@ -416,7 +416,7 @@ func TestC14(t *testing.T) {
 	c := h.New(t, "C14")
 	defer c.Finish()
 	c.Rule("reuse: goroutine-free programs from the union of the scopes/control/errors profiles plus x++ / x op= e, anonymous and deferred calls, parsed once and run 3-4 times in environments of alternating presets (same names bound to different Go functions), then from 8 goroutines at once; compared with fresh parses run alone in equal fresh environments (value, error text, probe trace, final top-level bindings) and with the tree's structural dump before the first run; non-trivial = >=1 call and (>=1 ++/op= or deferred/anonymous call), >=3 runs in 2 presets. tree: full-grammar programs (ill-typed, mostly failing) run twice and from 4 goroutines, dump must not change. import: rebinding symbols inside an imported package table in one environment must not be visible to another import or in env.Packages. distinct by source text. Built with -race")
-	h.Run(c, "reuse", c.N(800, 15000), gen, oracle)
-	h.Run(c, "tree", c.N(800, 15000), genWild, oracleWild)
+	h.Run(c, "reuse", c.N(800, 6000), gen, oracle)
+	h.Run(c, "tree", c.N(800, 6000), genWild, oracleWild)
 	h.Run(c, "import", c.N(400, 4000), genImport, oracleImport)
 }
